@@ -12,6 +12,7 @@
    leading ones) -- per-instance certificate. *)
 From Coq Require Import List Reals.
 From ML Require Import Ops Vec VecR MatR LinAlg Mahalanobis MahalanobisR C09Proof CovProof.
+From ML Require Import PinsC09.
 Import ListNotations.
 Open Scope R_scope.
 
@@ -32,3 +33,7 @@ Theorem C09_covariance_is_variance : forall d (X : Rm) (x : Rv), X <> [] -> Fora
   quadformR (covR 1 X) x = ssd (mvmulR X x) / INR (length X - 1).
 Proof. intros d X x. exact (cov_quadform d 1 X x). Qed.
 Print Assumptions C09_covariance_is_variance.
+
+(* text-level tie: the functions this property's hand-written model and harness were written from are unchanged
+   (digests regenerated from /repo on every run; Proofs/PinsC09.v) *)
+Definition C09_source_pins := pins_C09_ok.
